@@ -6,6 +6,7 @@ CONSTANTS
   Prio = TRUE
   Weak_LocalClientPerConnMutex = FALSE
   Weak_SyncWithoutMutex = FALSE
+  Weak_CallbackOutsideMutex = FALSE
 INIT CInit
 NEXT CNext
 VIEW CView
